@@ -22,7 +22,7 @@ ANCHORS = ["runlengtharray.py::RunLength2dArray.from_array", "runlengtharray.py:
            "runlengtharray.py::RunLengthRaggedArray.col_counts", "runlengtharray.py::RunLength2dArray._col_any", "runlengtharray.py::RunLength2dArray.__array_ufunc__",
            "runlengtharray.py::RunLengthRaggedArray.__array_function__", "runlengtharray.py::rlra_concatenate", "runlengtharray.py::RunLength2dArray.from_intervals",
            "runlengtharray.py::RunLengthRaggedArray.ravel", "runlengtharray.py::RunLength2dArray.to_array", "runlengtharray.py::RunLengthRaggedArray.to_array"]
-OPS = ["decode", "meta", "rows", "elem", "col_int", "col_slice", "red_row", "red_col", "ravel", "concat", "npfunc", "unary", "scalar", "colvec", "intervals"]
+OPS = ["decode", "meta", "rows", "elem", "col_int", "col_slice", "red_row", "red_col", "ravel", "concat", "npfunc", "unary", "scalar", "colvec", "intervals", "sel_inplace"]
 FLOOR_TAGS = ["op:" + o for o in OPS] + ["variant:2d", "variant:ragged", "variant:ragged_from_matrix", "rows:int", "rows:slice", "rows:list", "rows:mask",
                                          "cs:pos", "cs:neg", "side:L", "side:R", "red:argmax", "red:mean", "col:sum", "col:mean", "col:col_counts", "col:any", "j:neg",
                                          "kind:b", "kind:i", "kind:u", "kind:f", "order:F", "order:T", "source:lazyrows", "source:lazychain", "via:intervals", "via:plus1", "concat:mixed-dtypes", "scalar:0-d-array", "scalar:numpy-typed", "axis:-2"]
@@ -217,6 +217,32 @@ def run(case):
             a = attempt(lambda: to_rows(getattr(rlx, name)(axis=ax)))
         what = "%s over columns" % name
         rtol = 1e-9
+    elif op == "sel_inplace":
+        # rows are selected (not yet looked at), then the array they were selected from is updated with an in-place operator,
+        # then the selection is read: it holds the values from before the update (a selection is a value, as numpy's fancy indexing)
+        import operator
+        rs = case["rs"]
+        sel = rows_of(pyrows, rs)
+        real = np.array(rs, dtype=bool) if (isinstance(rs, list) and rs and isinstance(rs[0], bool)) else rs
+        s_ = attempt(lambda: rlx[real])
+        if not s_.ok:
+            return violated("rl[%s] of %s raised %r" % (short(rs, 60), desc0, s_), tags)
+        iop = {"add": operator.iadd, "multiply": operator.imul, "subtract": operator.isub}[case["uf"]]
+        other = case["scalar"] if case.get("col") is None else np.array(case["col"], dtype=dt).reshape(n, 1)
+        upd = attempt(iop, rlx, other)
+        o = ("2d", [list(r) for r in sel])
+        a = attempt(lambda: to_rows(s_.value))
+        what = "rows %s selected before 'rl %s= %s'" % (short(rs, 60), case["uf"], short(other, 40))
+        if upd.ok and a.ok and a.value == o:
+            # and the updated array holds the updated values
+            uf_ = getattr(np, case["uf"])
+            expu = ("2d", [uf_(r, (other if case.get("col") is None else other[i])).tolist() for i, r in enumerate(rows)])
+            gu = attempt(lambda: to_rows(upd.value))
+            if not gu.ok or gu.value != expu:
+                return violated("%s of %s: the updated array decodes to %s, expected %s" % (what, desc0, repr(gu) if not gu.ok else short(gu.value, 160), short(expu, 160)), tags)
+            return held(tags, nontrivial)
+        if not upd.ok:
+            return undefined("the in-place operator is refused: %r" % upd, tags)
     elif op == "ravel":
         o = ("1d", [x for r in pyrows for x in r])
         a = attempt(lambda: to_rows(rlx.ravel()))
@@ -379,6 +405,14 @@ def gen_case(rng, tier, op=None, variant=None, dtype=None):
             return c
         if op == "rows":
             c["rs"] = sel_rows(rng, n, ("int", "slice", "list", "mask"))
+            return c
+        if op == "sel_inplace":
+            if np.dtype(dtype).kind == "b":
+                continue
+            c["rs"] = sel_rows(rng, n, ("slice", "list", "mask", "list", "mask"))
+            c.update(uf=rng.choice(["add", "multiply", "subtract"]), scalar=rng.choice([1, 2, 3]))
+            if rng.random() < 0.4 and n > 1:
+                c["col"] = [rng.randint(1, 4) for _ in range(n)]
             return c
         if op == "elem":
             i = rng.randint(-n, n - 1)
